@@ -129,7 +129,8 @@ func (a *agg) evidence(spec engSpec, meta core.Meta, tier string, seed uint64, w
 		"build_s":                   b.BuildS,
 		"exhaustive":                meta.Exhaustive && tier == "thorough" && !stopped,
 		"sweep_cases":               map[string]int{"quick": meta.SweepQuick, "thorough": meta.SweepThorough},
-		"race_detector":             spec.Race,
+		"race_detector":             spec.Race || spec.RaceShare > 0,
+		"race_detector_share":       raceShareText(spec),
 		"regression_tapes_replayed": a.regress,
 	}
 	return map[string]interface{}{
@@ -157,4 +158,14 @@ func sortedStrings(m map[string]int) []string {
 	}
 	sort.Strings(ks)
 	return ks
+}
+
+func raceShareText(spec engSpec) string {
+	switch {
+	case spec.Race:
+		return "every run"
+	case spec.RaceShare > 0:
+		return fmt.Sprintf("one in %d seeded runs (same tapes, race-detector build of the engine); stats.runs_under_race_detector counts them", spec.RaceShare)
+	}
+	return "none"
 }
